@@ -6,21 +6,21 @@ CLAIMED = {
          "sibling agreement over the three tracing bodies of every impl + ordering/dominance rules over the collector's MIR", "§5 C09"),
  "C12": ("value tagging: compile-time enumeration of all 65 536 x 3 bit patterns against the current `mod bits` (exactly-one-kind, round trips, NaN canonicalisation); single door for constructing NanBoxedValue; (thorough) jsvalue-enum API parity",
          "compile-time witness (rustc const evaluation of the extracted source) + who-may-construct/provenance rule over MIR", "§5 C12"),
- "C15": ("typed arrays: float-to-int element conversions range-limited before the cast (no saturation before the modular step); no round-half-away before a cast; unsafe element access on subslice()d, validated slices; raw copies only from audited callers with reference-derived pointers and, between two views, only on the equal side of a kind test; a buffer-length witness is not reused after script could run; fresh slices are range-indexed only under their own length; raw copy byte counts are whole elements",
+ "C15": ("typed arrays: float-to-int element conversions range-limited before the cast (no saturation before the modular step); no round-half-away before a cast; unsafe element access on subslice()d, validated slices; raw copies only from audited callers with reference-derived pointers and, between two views, only on the equal side of a kind test; a buffer-length witness is not reused after script could run; fresh slices are range-indexed only under their own length; raw copy byte counts are whole elements; NaN bit patterns read from buffers are canonicalised (shared C12 witness)",
          "value-shape classification of every Cast(FloatToInt) by reaching definitions and dominating comparisons + provenance/dominance rules on unsafe call sites and on length witnesses across script-capable calls", "§5 C15"),
  "C16": ("jobs: only FIFO-preserving operations on job queues, job types consumed by value and not Clone, budget/non-budget opcode handlers identical up to the budget subtraction, kept objects cleared per batch, await-like steps (PromiseResolve + PerformPromiseThen) have no synchronous shortcut, async-generator requests are settled directly only when Completed",
          "who-may-call on queue fields discovered by type + ADT/impl facts + sibling comparison of the 2x256 generated handlers + must-pass-through on await-like steps", "§5 C16"),
- "C17": ("modules: status transition relation extracted from every transition closure is a subset of the specification's and Evaluated is terminal; the module body is executed only behind status guards; the host loader is asked only for a new, uncached module; [[DFSAncestorIndex]] is only min-updated; both stack-pop arms agree on the cycle root",
+ "C17": ("modules: status transition relation extracted from every transition closure is a subset of the specification's and Evaluated is terminal; the module body is executed only behind status guards; the host loader is asked only for a new, uncached module; [[DFSAncestorIndex]] is only min-updated; both stack-pop arms agree on the cycle root; [[HasTLA]] (contains AwaitExpression) sees for-await and does not look into arrow functions",
          "path-sensitive typestate extraction over MIR closures + who-may-call/dominance + value-shape rule on the low-link stores", "§5 C17"),
  "C18": ("JSON.parse: ECMA-404 pre-validation dominates parsing and evaluation of the same text; JSON parse/compile modes set; JSON.stringify: the escape sequences emitted by quote_json_string lie within the JSON grammar's escape table ; the number lexer performs no float arithmetic (thin: three necessary clauses)",
          "dominance + provenance rule over the MIR of Json::parse; constant/value-shape classification of every append in Json::quote_json_string incl. promoted constants and const tables", "§5 C18"),
  "C14": ("arrays: hash-ordered index iteration is sorted before it can be observed; dense fast paths guarded by is_array (and extensibility for writes); doubles narrowed into the int-packed storage only through a bit-exact round-trip test; dense writes require receiver = object; VM array builders use define semantics; the length slot is never shrunk directly",
          "who-consumes + dominance rules over MIR call sites of the index iterators and dense accessors", "§5 C14"),
- "C20": ("determinism/isolation: no script value reachable from static or thread-local state; seed/address-ordered hash iteration never reaches observable order; nothing is ordered by interner index or address; int and float keys hash alike; realm swap paired",
+ "C20": ("determinism/isolation: no script value reachable from static or thread-local state; seed/address-ordered hash iteration never reaches observable order; nothing is ordered by interner index or address; int and float keys hash alike; shared counters only count up; realm swap paired",
          "type reachability over statics + hasher/key classification of every hash-container iteration site and element-type classification of every sort/search/min/max/ordered-container call from monomorphic MIR types", "§5 C20"),
  "C11": ("strings: equality impls compare lengths before zipping, UTF-8 bytes meet Latin-1 payloads only for ASCII and a Latin-1 payload is decoded as UTF-8 only under is_ascii(), hash arms agree, static table literals ASCII",
          "dominance/provenance rules over MIR of boa_string incl. promoted constant bodies", "§5 C11"),
- "C04": ("binding placement: the three scope visitors agree on scope-bearing nodes, eval/with force escapes, FunctionScopes operations cover every scope field, contains(DirectEval) sees methods / field initializers / static blocks, ContainsVisitor siblings agree, the scope passes agree on scope entry and reach every expression-bearing child, const cache and constness shortcuts guarded by in_with, the this-escape walker knows arrows, aliased operand registers not live across another operand's code",
+ "C04": ("binding placement: the three scope visitors agree on scope-bearing nodes, eval/with force escapes, FunctionScopes operations cover every scope field, contains(DirectEval) sees methods / field initializers / static blocks, ContainsVisitor siblings agree, the scope passes agree on scope entry (single-scope statements and loops) and reach every expression-bearing child, node constructors examine each part for direct eval on its own, const cache and constness shortcuts guarded by in_with, the this-escape walker knows arrows, aliased operand registers not live across another operand's code",
          "sibling agreement over impl facts + dominance + interprocedural value flow over the bytecompiler call graph", "§5 C04"),
  "C05": ("optimizer: duplication only under a literal-only purity test, rewrites only under Literal tests, folding evaluates literals only and with the value routines of the opcode handler the compiler emits for the operator, a moved-out operand replaces the node only if literal-tested or rebuilt, no NaN-blind float comparison, DCE keeps hoisted declarations and loop initialisers",
          "dominance rules over MIR of the optimizer passes with enum discriminants read from boa_ast + three-way sibling join folder arm / compiler arm / opcode handler", "§5 C05"),
